@@ -23,7 +23,7 @@ _TIMEOUTS = [0]     # timeouts seen in this process: after the first one the bud
 MAX_TIMEOUTS = 12
 
 def _budget(nlines, timeout):
-    if _TIMEOUTS[0] + _SLOW[0] == 0: return min(timeout, 30 + 0.05 * nlines)
+    if _TIMEOUTS[0] + _SLOW[0] == 0: return min(timeout, 60 + 0.2 * nlines)      # generous: a loaded machine must not produce a first timeout
     return min(timeout, 6 + 0.01 * nlines)
 
 def _run_file(exe, lines, timeout, exempt=None):
